@@ -10,6 +10,11 @@ const (
 )
 
 var registry = []*HarnessSpec{
+	{Prop: "C13", Name: "zzH13b", Pkg: pkgSystem, Tier: "quick", Params: map[string]int{"messages": 2}, Bounds: "2 rtnetlink address messages with symbolic 32-bit flags, prefix length, cache lifetime and address; execute failing or not"},
+	{Prop: "C14", Name: "zzH13b", Pkg: pkgSystem, Tier: "quick", Params: map[string]int{"messages": 2}, Bounds: "address flags source (shared with C13)"},
+	{Prop: "C15", Name: "zzH15b", Pkg: pkgSystem, Tier: "quick", Bounds: "2 interfaces with symbolic flags, one symbolic route message per queried interface"},
+	{Prop: "C04", Name: "zzH04c", Pkg: pkgSystem, Tier: "quick", Bounds: "sysctl file content of 0..2 arbitrary bytes or a read error; forwarding and autoconf keys; write of either value"},
+	{Prop: "C10", Name: "zzH10f", Pkg: pkgSystem, Tier: "quick", Bounds: "interface flags symbolic (32 bits); 0..2 addresses each IPv6 (symbolic) / IPv4 / non-IPNet; listing failure"},
 	{Prop: "C17", Name: "zzH17b", Pkg: pkgCrhttp, Tier: "quick", Unwind: 200, Bounds: "debug API request for a monitoring interface plus an advertising interface with one stanza of every kind (real parser), prepared or never prepared, forwarding symbolic, State read failing or not"},
 	{Prop: "C17", Name: "zzH17c", Pkg: pkgCrhttp, Tier: "quick", Bounds: "all four (prometheus, pprof) combinations"},
 	{Prop: "C17", Name: "zzH17a", Pkg: pkgCorerad, Tier: "quick", Unwind: 600, Bounds: "three interfaces (advertising with one stanza of every kind parsed by the real parser, monitoring, neither) in 3 orders; plugins prepared or never prepared; forwarding/autoconf per interface symbolic; lifetimes symbolic"},
